@@ -141,10 +141,10 @@ def _render_task(rng, p: Proj, tid: str, path: list[str], leaf_ids: list[str], r
             if other != alloc[0]:
                 alloc.append(other)
         a = f"{ind}allocate {', '.join(alloc)}"
-        if len(res_ids) > 1 and rng.random() < 0.15:
-            alt = _pick(rng, res_ids)
-            if alt not in alloc:
-                a += f" {{ alternative {alt}{' persistent' if rng.random() < 0.5 else ''} }}"
+        if len(res_ids) > 1 and rng.random() < 0.2:
+            alts = [x for x in dict.fromkeys(_pick(rng, res_ids) for _ in range(rng.randrange(1, 4))) if x not in alloc]
+            if alts:
+                a += f" {{ alternative {', '.join(alts)}{' persistent' if rng.random() < 0.5 else ''} }}"
         lines.append(a)
     elif kind < 0.8:
         lines.append(f"{ind}duration {rng.randrange(1, 72)}h" if unit_h else f"{ind}duration {rng.randrange(1, 10)}d")
@@ -363,6 +363,15 @@ def gen_project(rng, reports: str = "mixed", size: str = "small") -> dict:
         if use_macro:
             lines = [ln.replace("allocate r0", _pick(rng, ["${allocdev r0}", "${alloc0}"])) if ln.strip() == "allocate r0" and rng.random() < 0.7 else ln for ln in lines]
         p.tasks.append("\n".join(lines))
+    if rng.random() < 0.15:
+        # fail-over pattern: a busy primary and several alternatives that differ in efficiency and availability
+        s0 = p.start + timedelta(days=rng.randrange(0, 4))
+        p.resources.append('resource fx "FX" {}\nresource fy "FY" { efficiency 0.5 }\nresource fz "FZ" {\n  efficiency 2.0\n  vacation %s - %s\n}' % (s0.isoformat(), (s0 + timedelta(days=1)).isoformat()))
+        p.tasks.append(f'task foa "FOA" {{\n  effort {rng.randrange(8, 30)}h\n  allocate fx\n  start {s0.isoformat()}\n  priority 900\n}}')
+        alts = _pick(rng, ["fy, fz", "fz, fy", "fy, fz, r0", "fz, fy"])
+        p.tasks.append(f'task fob "FOB" {{\n  effort {rng.randrange(4, 20)}h\n  allocate fx {{ alternative {alts} }}\n  start {s0.isoformat()}\n}}')
+        p.tasks.append('task foc "FOC" {\n  effort 3h\n  allocate fy\n  depends fob\n}')
+        p.tags.add("failover")
     if opts["alap"]:
         p.tags.add("alap")
     # comments
